@@ -48,7 +48,7 @@ class C12(BtProp):
             vis = "".join(rng.sample(vis, len(vis)))
             ops = ["mgr v=%s pre=%d post=%d" % (vis, rng.randint(0, 2), rng.randint(0, 2))]
             if rng.random() < 0.5:
-                ops.append("setup")
+                ops.append(rng.choice(["setup", "setup", "setupt"]))
             now = 0
             for _ in range(rng.randint(2, 10 if tier != "thorough" else 30)):
                 if rng.random() < 0.12:
@@ -88,12 +88,12 @@ class C12(BtProp):
             op = b["op"].split()
             L = next((x[2:].split() for x in b["lines"] if x.startswith("L ")), None)
             if any(x.startswith("ERR") for x in b["lines"]):
-                if op[0] in ("setup", "mtick") and any(n[0] == "P" and not policy_valid(sh, n[1]) for n in spec_nodes(spec)):
+                if op[0] in ("setup", "setupt", "mtick") and any(n[0] == "P" and not policy_valid(sh, n[1]) for n in spec_nodes(spec)):
                     break
                 out.append(viol("raised", "`%s` raised" % b["op"][:30]))
                 break
-            if op[0] in ("setup", "shutdown"):
-                tag = "U " if op[0] == "setup" else "D "
+            if op[0] in ("setup", "setupt", "shutdown"):
+                tag = "U " if op[0] != "shutdown" else "D "
                 got = next((x[2:].split() for x in b["lines"] if x.startswith(tag)), [])
                 if got != [str(i) for i in po]:
                     out.append(viol(op[0], "%s called on %s, expected every behaviour once, children before parents: %s"
